@@ -3,6 +3,7 @@ import StrandModel.Model.Shuffle
 import StrandModel.Model.Generators
 import StrandModel.Model.Rng
 import StrandModel.Model.GenShuffle
+import StrandModel.Model.Radix
 /- Dispatcher, part 2: shuffle, generators, vector codecs. -/
 namespace Strand.Driver
 open Strand Strand.Proto
@@ -90,6 +91,12 @@ def runNatShuffle (P : Params) (fl : Flavour) (op : String) (args : List Val) : 
   | "rnd_elem", [.bytes y] => match bigintRnd P y with
     | some (some e, rest) => .ok (.list [.nat e, .nat (y.length - rest.length)])
     | _ => .panic
+  | "e_from_str", [.nat radix, .bytes y] => vOptNat (elementFromStringRadix P fl radix y)
+  | "to_str", [.nat radix, .nat v] => .ok (.bytes (toRadix radix v))
+  | "sk_gen", [.bytes y] => match bigintKeyGen P fl y with
+    | some (x, pk, rest) => .ok (.list [.nat x, .nat pk, .nat (y.length - rest.length)]) | none => .panic
+  | "random_cts", [.nat n, .bytes y] => match bigintRandomCts P n y with
+    | some (cs, rest) => .ok (.list [.list (cs.map vCt), .nat (y.length - rest.length)]) | none => .panic
   | "perm", [.nat n, .bytes y] => match fisherYates n y with
     | some (pm, rest) => .ok (.list [vNats pm, .nat (y.length - rest.length)]) | none => .panic
   | "h2e", [.bytes b] => okNat (natHashToElement P fl b)
